@@ -1,6 +1,7 @@
 package memory
 
 import (
+	"mltwist/internal/exprtransform"
 	"mltwist/internal/state/interval"
 	"mltwist/pkg/expr"
 	"mltwist/pkg/expr/exprtools"
@@ -71,19 +72,22 @@ func (m *Sparse) Load(addr model.Addr, w expr.Width) (expr.Expr, bool) {
 		return nil, false
 	}
 
-	var finalEx expr.Expr
-	if low := ints[0].Low; low == addr {
-		finalEx = ints[0].Val.expr()
-	} else {
-		finalEx = ints[0].Val.cutBegin(expr.Width(addr - low)).expr()
+	// Both cutBegin and cutEnd accept number of bytes to keep.
+	first := ints[0].Val
+	if high := ints[0].High; end < high {
+		first = first.cutEnd(first.width() - expr.Width(high-end))
 	}
+	if low := ints[0].Low; low < addr {
+		first = first.cutBegin(first.width() - expr.Width(addr-low))
+	}
+	finalEx := exprtransform.SetWidth(first.expr(), w)
 
 	for _, o := range ints[1:] {
 		var ex expr.Expr
 		if o.High <= end {
 			ex = o.Val.expr()
 		} else {
-			ex = o.Val.cutEnd(expr.Width(o.High - end)).expr()
+			ex = o.Val.cutEnd(expr.Width(end - o.Low)).expr()
 		}
 
 		ex = expr.NewBinary(expr.Lsh, ex, expr.ConstFromUint((o.Low-addr)*8), w)
